@@ -326,7 +326,7 @@ theorem storeTok_int64 (n n0 : Node) (r : Rec) (v v0 : Int) (hval : n.val = .i64
   have : decide (n.enc.type = DType.flagtable) = false := by simp [hty]
   rw [this, intOfTok_fmtInt v h0 h1]
   rw [hn0]
-  simp only [Val.setInt64]
+  simp only [Val.setInt64, SF.wrapI64_of_range v h0 h1]
   cases n
   simp_all
 
@@ -342,7 +342,8 @@ theorem storeTok_flag64 (n n0 : Node) (r : Rec) (v v0 : Int) (hval : n.val = .i6
   have : decide (n.enc.type = DType.flagtable) = true := by simp [hty]
   rw [this, intOfTok_printBinary v n.enc.nbits h0 h1 hn]
   rw [hn0]
-  simp only [Val.setInt64]
+  simp only [Val.setInt64, SF.wrapI64_of_range v (by have : (0:Int) ≤ (2:Int)^63 := by positivity
+                                                     omega) h1]
   cases n
   simp_all
 
